@@ -31,9 +31,10 @@ def run(c):
     eq = [e for _, e in c['curve']]
     df = pd.DataFrame({'Equity': eq}, index=idx)
     alloc = pd.DataFrame({'EQ:A': [1.0] * len(idx)}, index=idx)
-    ts_ = TearsheetStatistics(df.copy())
+    P = c.get('periods', 252)
+    ts_ = TearsheetStatistics(df.copy(), periods=P)
     t = ts_.get_results(df.copy())
-    j = JSONStatistics(df.copy(), alloc, periods=c.get('periods', 252)).statistics['strategy']
+    j = JSONStatistics(df.copy(), alloc, periods=P).statistics['strategy']
     rets = t['returns']
     cum = t['cum_returns']
     dd, mdd, dur = perf.create_drawdowns(cum)
@@ -41,8 +42,8 @@ def run(c):
         'returns': series(rets), 'cum': series(cum), 'dd': series(dd), 'maxdd': num(mdd), 'duration': int(dur),
         'weekly': agg(perf.aggregate_returns(rets, 'weekly')), 'monthly': agg(perf.aggregate_returns(rets, 'monthly')),
         'yearly': agg(perf.aggregate_returns(rets, 'yearly')),
-        'cagr': num(perf.create_cagr(cum, 252)), 'sharpe': num(perf.create_sharpe_ratio(rets, 252)),
-        'sortino': num(perf.create_sortino_ratio(rets, 252)),
+        'cagr': num(perf.create_cagr(cum, P)), 'sharpe': num(perf.create_sharpe_ratio(rets, P)),
+        'sortino': num(perf.create_sortino_ratio(rets, P)),
         'mean': num(np.mean(rets)), 'std': num(np.std(rets)),
         'tear': {'sharpe': num(t['sharpe']), 'maxdd': num(t['max_drawdown']), 'maxdd_pct': num(t['max_drawdown_pct']),
                  'duration': int(t['max_drawdown_duration']), 'dd': series(t['drawdowns']), 'returns': series(t['returns']),
